@@ -239,6 +239,13 @@ for it in range(npairs):
     if S01.shape != ref01.shape or np.abs(S01 - ref01).max() > tol: fails.append((hist, "two-basis overlap differs from the inner products of the documented functions", float(np.abs(S01 - ref01).max()) if S01.shape == ref01.shape else "shape"))
     if np.abs(dropped01).max() > 1e-13: fails.append((hist, "prefactor screening leaves out contributions far above the 1e-15 threshold", float(np.abs(dropped01).max())))
     if np.abs(S01 - S10.T).max() > 1e-12 * max(1, np.abs(S01).max()): fails.append((hist, "exchanging the two bases does not transpose the matrix"))
+    # the very same basis object at two geometries (a displaced copy of the molecule) is still a two-basis call
+    coords2 = coords + rng.normal(size=coords.shape) * 0.7
+    cases += 1
+    Ssame = compute_overlap(b0, coords, b0, coords2)
+    fulls, dropps = oo.overlap_oracle(b0, coords, b0, coords2, screened=1e-15)
+    refs = oo.apply_conventions(oo.apply_conventions(fulls - dropps, b0, 0), b0, 1)
+    if Ssame.shape != refs.shape or np.abs(Ssame - refs).max() > 1e-11 * max(1.0, np.abs(refs).max()) + 2e-14: fails.append((hist, "overlap of one basis object at two geometries differs from the inner products of the documented functions", float(np.abs(Ssame - refs).max()) if Ssame.shape == refs.shape else "shape"))
     # changing conventions permutes / sign-flips accordingly
     b0h = MolecularBasis(b0.shells, HORTON2_CONVENTIONS, "L2")
     Sh = compute_overlap(b0h, coords)
